@@ -21,7 +21,7 @@ static const char* GLV[][2] = {{"ci", "mi"}, {"ca[1]", "ma[1]"}, {"cs.f", "ms.f"
                                {"tci", "mi"}, {"cas.f", "mas.f"}, {"ca[mi]", "ma[mi]"}, {"cfg.lim[0]", "mcfg.lim[0]"}, {"cfg.lim[mi]", "mcfg.cur"}};
 static const int NGLV = sizeof GLV / sizeof GLV[0];
 // write forms over an int l-value L (M is an unrelated mutable int)
-static const int NWF = 16;
+static const int NWF = 21;   // all twelve assignment operators, the four increments / decrements, inline-if targets, a comma list, a reference argument
 static std::string wform(int w, const std::string& L, bool stmt = true)
 {
     if (w == 13 && stmt) return "for (mj = 2, " + L + " = 1; mj > 5; mj = 3) { }";   // comma list as a for-initialiser inside a function body
@@ -43,6 +43,11 @@ static std::string wform(int w, const std::string& L, bool stmt = true)
     case 13: return "mj = 2, " + L + " = 1, mj = 3";    // inside a comma list (the grammar has no parenthesised comma expression, so a comma l-value cannot be written down)
     case 14: return "f_int(" + L + ")";                // bound to a non-const reference parameter of a function
     case 15: return "(mj > 0 ? mj : " + L + ")++";
+    case 16: return L + " /= 1";
+    case 17: return L + " %= 2";
+    case 18: return L + " &= 1";
+    case 19: return L + " ^= 1";
+    case 20: return L + " >>= 1";
     }
     return "";
 }
@@ -61,7 +66,7 @@ static void verdicts(const std::string& cmodel, const std::string& mmodel)
     vf_reach("end");
 }
 
-extern "C" void harness_global_const()  /* vf: bounds=11_access_paths(incl._a_const_member_array_inside_a_mutable_struct)_into_const_globals(scalar,array_element,struct_field,nested,typedef_const,anonymous_const_struct)_x_16_write_forms_x_11_placements(edge_update,statement,for_initialiser/condition/step,if/while/do_condition,returned_value,nested_blocks) */
+extern "C" void harness_global_const()  /* vf: bounds=11_access_paths(incl._a_const_member_array_inside_a_mutable_struct)_into_const_globals(scalar,array_element,struct_field,nested,typedef_const,anonymous_const_struct)_x_21_write_forms_x_11_placements(edge_update,statement,for_initialiser/condition/step,if/while/do_condition,returned_value,nested_blocks) */
 {
     // placement: 0 edge update, 1 statement of a function body, then every other place of a function body where an expression is evaluated
     int src = vf_pick("!source", NGLV), w = vf_pick("!write", NWF), place = vf_pick("!in_function", 11);
@@ -120,7 +125,7 @@ extern "C" void harness_template_ref_argument()  /* vf: bounds=const_object_boun
     verdicts(mk(cl), mk(ml));
 }
 
-extern "C" void harness_locals_and_parameters()  /* vf: bounds=const_local,const_value_parameter,const_reference_parameter,const_local_array/struct,template_const_parameter,template_local_const_x_16_write_forms */
+extern "C" void harness_locals_and_parameters()  /* vf: bounds=const_local,const_value_parameter,const_reference_parameter,const_local_array/struct,template_const_parameter,template_local_const_x_21_write_forms */
 {
     int src = vf_pick("!source", 8), w = vf_pick("!write", NWF);
     std::string cm, mm;
@@ -140,7 +145,7 @@ extern "C" void harness_locals_and_parameters()  /* vf: bounds=const_local,const
     verdicts(cm, mm);
 }
 
-extern "C" void harness_binders()  /* vf: bounds=select_binder(fresh_or_shadowing_a_global/template-local),for-iteration_binder,forall/exists/sum_binder_x_16_write_forms;twin_writes_a_mutable_in_the_same_place_(no_twin_for_quantifier_bodies:they_must_be_side-effect_free_anyway) */
+extern "C" void harness_binders()  /* vf: bounds=select_binder(fresh_or_shadowing_a_global/template-local),for-iteration_binder,forall/exists/sum_binder_x_21_write_forms;twin_writes_a_mutable_in_the_same_place_(no_twin_for_quantifier_bodies:they_must_be_side-effect_free_anyway) */
 {
     int src = vf_pick("!binder", 8), w = vf_pick("!write", NWF);
     std::string cm, mm;
